@@ -44,7 +44,24 @@ def _e(text):
     return lin(ast.parse(text, mode='eval').body)
 
 
+def _optional_arguments(ctx, rep):
+    """PAINT's border defaults to the fill attribute only when it was left out: border 0 is a border."""
+    from ..optargs import int_truthiness_tests
+    n_fn, hits = int_truthiness_tests(ctx, [G])
+    for fn, local, test in hits:
+        rep.ob('arguments.zero-is-not-omitted', '%s: `%s` tested by truthiness after conversion to int' % (qualname(fn).split(':')[1], local), False,
+               'an argument given as 0 is treated as left out (%s); ask `is None`' % short(test, 60), ctx.where(test))
+    rep.floor('arguments.zero-is-not-omitted', n_fn, 6, 'graphics callbacks with int-converted arguments')
+    pa = ctx.fn(G + ':Graphics.paint_')
+    fl = ctx.flow(pa)
+    dflt = [a for a in own_nodes(pa) if isinstance(a, ast.Assign) and norm(a.targets[0]) == 'border_index' and norm(a.value) == 'fill_attr_index']
+    rep.ob('arguments.zero-is-not-omitted', 'paint_: the border defaults to the fill attribute exactly when it is None',
+           len(dflt) == 1 and [(f.text, f.pol) for f in fl.facts(dflt[0]) if 'border_index' in f.text] == [('border_index is None', True)],
+           repr([(f.text, f.pol) for f in fl.facts(dflt[0])]) if dflt else 'no default', ctx.where(pa))
+
+
 def check(ctx, rep):
+    _optional_arguments(ctx, rep)
     ff = ctx.fn(G + ':Graphics._flood_fill')
     fl = ctx.flow(ff)
     loops = [n for n in ff.body if isinstance(n, ast.While)]
@@ -156,6 +173,8 @@ def variants(ctx):
     def t(name, f):
         return lambda tree: f(mu.find_def(tree, 'Graphics.' + name))
     return [
+        Va('border-zero-treated-as-omitted', 'break', G, t('paint_', lambda f: mu.replace_expr(f, mu.text_is('border_index is None'), 'not border_index')), expect='arguments.zero-is-not-omitted'),
+        Va('fill-zero-treated-as-omitted', 'break', G, t('paint_', lambda f: mu.insert_before(f, lambda st: isinstance(st, ast.Assign) and norm(st.targets[0]) == 'fill_attr', 'fill_attr_index = fill_attr_index or -1')) , expect='arguments.zero-is-not-omitted'),
         Va('paints-from-border-pixel', 'break', G, t('_flood_fill', lambda f: mu.remove_stmt(f, lambda st: isinstance(st, ast.If) and 'border_attr' in norm(st.test) and 'graph_view[y, x]' in norm(st.test))), expect='seed.on-border'),
         Va('paints-from-outside', 'break', G, t('_flood_fill', lambda f: mu.remove_stmt(f, lambda st: isinstance(st, ast.If) and 'bound_x0' in norm(st.test) and 'return' in norm(st))), expect='seed.outside'),
         Va('left-extension-starts-on-interval', 'break', G, t('_flood_fill', lambda f: mu.replace_expr(f, mu.text_is('self._scanline_until(border_attr, y, x_start - 1, bound_x0 - 1)'), 'self._scanline_until(border_attr, y, x_start, bound_x0 - 1)')), expect='extend.x_left'),
